@@ -376,9 +376,10 @@ def main(run):
             cases.append(make_case(run.rng, len(cases), sub))
     import c08
     for cc in c08.corpus_cases(0):
-        # fresh, repeat, delete the output, repeat
-        pts = [{"edit": None, "edit_desc": None, "delete": d, "spec": cc.spec} for d in (False, False, True, False)]
-        cmds = [cc.aio] if cc.spec.sub == "map" else ([cc.aio, cc.perms[0]] if any(s.name == "Mid" for s in cc.spec.structs()) else [cc.perms[0]])
+        # fresh, repeat, delete the output and run
+        pts = [{"edit": None, "edit_desc": None, "delete": d, "spec": cc.spec} for d in (False, False, True)]
+        names = {s.name for s in cc.spec.structs()}
+        cmds = [cc.aio] if (cc.spec.sub == "map" or "Leaf" in names) else ([cc.aio, cc.perms[0]] if "Mid" in names else [cc.perms[0]])
         for cmd in cmds:
             cases.append(Case(len(cases), cc.spec, cmd, cc.sel, [dict(p) for p in pts]))
     run.log("cases:", len(cases), "points:", sum(len(c.points) for c in cases))
